@@ -5,6 +5,7 @@ import (
 	"fmt"
 	"math/big"
 	"math/rand"
+	"regexp"
 	"strings"
 	"time"
 
@@ -164,8 +165,15 @@ func (w *World) emit(ev string, args Rec, res PhaseResult) Rec {
 	}
 	if !res.Ok {
 		rec["err"] = errClass(res.Err)
+		if m := shortfallRe.FindStringSubmatch(res.Err); m != nil {
+			// the bank's own words: what the paying account has and what the payment needs
+			have, _ := sdkmath.NewIntFromString(m[1])
+			need, _ := sdkmath.NewIntFromString(m[2])
+			rec["have"], rec["need"] = NumInt(have), NumInt(need)
+		}
 		if res.Panic {
 			rec["panic"] = true
+			rec["panickind"] = panicKind(res.Err)
 			rec["errfull"] = firstLines(res.Err, 12)
 		}
 	}
@@ -176,6 +184,20 @@ func (w *World) emit(ev string, args Rec, res PhaseResult) Rec {
 	w.Tr.Emit(rec)
 	return rec
 }
+
+// panicKind names the class of a recovered panic (the trace specifications tell known consequences of open findings
+// from everything else by it).
+func panicKind(s string) string {
+	switch {
+	case strings.Contains(s, "negative coin amount"):
+		return "negative-coin"
+	case strings.Contains(s, "out of range"), strings.Contains(s, "out of bounds"):
+		return "bounds"
+	}
+	return "other"
+}
+
+var shortfallRe = regexp.MustCompile(`spendable balance (\d+)loya is smaller than (\d+)loya`)
 
 func firstLines(s string, n int) string {
 	l := strings.Split(s, "\n")
